@@ -17,8 +17,16 @@ theorem insertInDomain_congr (cs1 cs2 : List Cls) (h : ∀ k, findCls cs1 k = fi
   cases s with
   | insert k ns vs =>
     simp only [h]
+    have href : ∀ x, (referential (popAssocs s1) k).contains x = (referential (popAssocs s2) k).contains x := by
+      intro x
+      have hperm : (referential (popAssocs s1) k).Perm (referential (popAssocs s2) k) := by
+        unfold referential
+        exact ((popAssocs_perm hp).filter _).flatMap_right _
+      rw [Bool.eq_iff_iff]
+      simp only [List.contains_iff_mem]
+      exact hperm.mem_iff
     cases findCls cs2 k with
-    | some c => rfl
+    | some c => simp only [href]
     | none =>
       simp only
       congr 1
